@@ -14178,7 +14178,8 @@ func (e *Layer2AttributesExtended) Serialize() ([]byte, error) {
 
 	if e.IsBackupPe {
 		buf[3] |= uint8(BACKUP_PE)
-	} else if e.IsPrimaryPe {
+	}
+	if e.IsPrimaryPe {
 		buf[3] |= uint8(PRIMARY_PE)
 	}
 	if e.HasControlWord {
